@@ -25,9 +25,17 @@ base_demo, _ = rundemo()
 a = sh(f"git -C {wt} apply {patch}")
 if a.returncode:
     print("patch does not apply", a.stderr); sys.exit(3)
+# expected failures = what the unchanged current HEAD gives (cached per HEAD); all of them are in BASELINE always_fail
+cache = f"/var/tmp/numpoly-verif-basefail-{head}.json"
+if os.path.exists(cache):
+    expected = json.load(open(cache))
+else:
+    sh(f"git -C {wt} checkout -q -- .")
+    expected, _ = tests()
+    json.dump(expected, open(cache, "w"))
+    sh(f"git -C {wt} apply {patch}")
 failed, tail = tests()
 mut_demo, demo_out = rundemo()
-expected = ["test/test_array_function.py::test_count_nonzero[numpoly]", "test/test_array_function.py::test_count_nonzero[numpy]"]
 results = {}
 for cid in checks:
     out = "/var/tmp/numpoly-verif-mut"
